@@ -203,7 +203,18 @@ def run(ctx):
         cases.append(("rej-nocolon", (), b" ".join(D) + b"\n", "err:expected ':' in depfile"))
         d = D[0]
         cases.append(("rej-in-has-ins", (), b"out: " + b" ".join(D) + b"\n" + d + b": zz.h\n", "err:inputs may not also have inputs"))
-        nrej += 2
+        # the reappearing dependency anywhere among several targets of the later rule, other targets around it
+        others = [b"t%d.o" % k for k in range(rng.randint(1, 3))]
+        tg = list(others)
+        tg.insert(rng.randint(0, len(tg)), rng.choice(D))
+        cases.append(("rej-in-has-ins-multi", (), b"out: " + b" ".join(D) + b"\n" + b" ".join(tg) + b": zz.h\n", "err:inputs may not also have inputs"))
+        # ... and in a third rule, after an innocent second one
+        cases.append(("rej-in-has-ins-later", (), b"out: " + b" ".join(D) + b"\n" + b"other.o: q.h\n" + b" ".join(tg) + b": zz.h yy.h\n",
+                      "err:inputs may not also have inputs"))
+        # accepted: the same names as targets of rules without dependencies (what -MP writes, also several per rule)
+        DD = dedup(D)
+        cases.append(("mp-multi", ("clang", "mp", False), b"out: " + b" ".join(D) + b"\n" + b" ".join(DD) + b":\n", ([b"out"], DD)))
+        nrej += 4
 
     results, crashes = parse_many(b, [c[2] for c in cases])
     for se, content in crashes:
